@@ -7,7 +7,7 @@ SHIM="-Dmalloc=vf_malloc -Dcalloc=vf_calloc -Drealloc=vf_realloc -Dfree=vf_free 
 case "$V" in
   asan) CC=clang; FL="-O1 -g -fsanitize=address,undefined -fno-sanitize-recover=all -fno-omit-frame-pointer";;
   be)   CC=clang; FL="-O1 -g -fsanitize=address,undefined -fno-sanitize-recover=all -fno-omit-frame-pointer -D__sparc";;
-  tsan) CC=clang; FL="-O1 -g -fsanitize=thread";;
+  tsan) CC=clang; FL="-O1 -g -fsanitize=thread"; SHIM="";;
   fast) CC=gcc;   FL="-O2";;
   *) echo "bad variant"; exit 2;;
 esac
